@@ -116,12 +116,12 @@ def lit_hands(k, o):
 
 
 def lit_obs(k, o):
-    ops = '[' + ';'.join(f'({c}, {p})' for c, p in o['acc_ops']) + ']'
     per = []
-    for steps, (fh, fd, fhist) in o['observers']:
-        st = '[' + ';'.join(f'({lib.cbool(a)}, {pj(p)})' for a, p in steps) + ']'
-        per.append(f"({st}, ({nl(fh)}, {lib.copt(fd, nl)}, {hl(fhist)}))")
-    return f"({k['bid']}, {k['decl']}, [{';'.join(nl(h) for h in k['deal'])}], {ops}, [{';'.join(per)}])"
+    for ops, steps, (fh, fd, fhist) in o['observers']:
+        opl = '[' + ';'.join(f'({c}, {p})' for c, p in ops) + ']'
+        st = '[' + ';'.join(f'({lib.cbool(a)}, {lib.cbool(u)}, {pj(p)})' for a, u, p in steps) + ']'
+        per.append(f"({opl}, {st}, ({nl(fh)}, {lib.copt(fd, nl)}, {hl(fhist)}))")
+    return f"({k['bid']}, {k['decl']}, [{';'.join(nl(h) for h in k['deal'])}], [{';'.join(per)}])"
 
 
 def lit_avail(hand, led, res):
